@@ -131,7 +131,7 @@ class C19(common.Prop):
     case_requires = ('From Coq Require Import String.\nFrom Coq Require Import List Ascii ZArith Bool PrimFloat.\n'
                      'From CGV Require Import Base.PyBase Geom.Num Geom.LayoutCheck.')
     quick_cases = 300
-    thorough_cases = 4000
+    thorough_cases = 2500
     extended_cases = 400
     shard = 40
     allowed_axioms = ('ClassicalDedekindReals.sig_forall_dec', 'ClassicalDedekindReals.sig_not_dec',
